@@ -84,8 +84,8 @@ Print Assumptions c09_pad_variable_bad_shape.
 
 (* ---- "... and slicing it, and the reported output lengths are exactly the requested ones (empty
    slices giving length zero)" - chunk_by_slices, for negative starts, ends beyond the length, slices
-   lying wholly in the left or right padding (the reflect special case), empty and inverted slices.
-   Hypothesis T <> 0 (inside chunk_inputs_ok): see c09_chunk_T0_refuted. *)
+   lying wholly in the left or right padding (the reflect special case), empty and inverted slices;
+   T = 0 included (see c09_chunk_T0_example for the input that used to report length 0). *)
 Theorem c09_chunk_by_slices_correct : forall (A : Type) (T : nat) (d fill : A) (md : mode)
     (x : list (list A)) (slices : list (Z * Z)) (lens : option (list nat)),
   chunk_inputs_ok T md x slices lens ->
@@ -114,7 +114,7 @@ Print Assumptions c09_chunk_lens_exact.
 
 Theorem c09_chunk_by_slices_illegal_raises : forall (A : Type) (T : nat) (d fill : A) (md : mode)
     (x : list (list A)) (slices : list (Z * Z)) (lens : option (list nat)) (n : nat),
-  T <> 0 -> match lens with Some l => length l = length x | None => True end ->
+  match lens with Some l => length l = length x | None => True end ->
   n < length x ->
   (let r := crow_at T x slices lens n in
    legalb md (chunk_l (c_start r) (c_end r)) (chunk_r (c_len r) (c_start r) (c_end r)) (c_len r) = false) ->
@@ -123,18 +123,6 @@ Theorem c09_chunk_by_slices_illegal_raises : forall (A : Type) (T : nat) (d fill
   md <> Constant.
 Proof. exact (@chunk_by_slices_illegal). Qed.
 Print Assumptions c09_chunk_by_slices_illegal_raises.
-
-(* The length clause WITHOUT the hypothesis T <> 0 is false of the code: chunk_by_slices returns
-   early when N * T = 0, so a (1, 0) input with slice [0, 3) in constant mode reports length 0
-   instead of 3 (the same call with T = 1, lens = [0] reports 3).  Full statement that fails:
-   forall T ..., (chunk_inputs_ok minus "T <> 0") -> nth n olens 0 = chunk_len1 st en. *)
-Theorem c09_chunk_T0_refuted :
-  exists (x : list (list nat)) slices lens out olens,
-    x <> [] /\ (forall n, n < length x -> length (nth n x []) = 0 /\ nth n lens 0 <= 0) /\
-    chunk_by_slices 0 0 7 Constant x slices (Some lens) = Ok (out, olens) /\
-    nth 0 olens 0 <> chunk_len1 (fst (nth 0 slices (0, 0)%Z)) (snd (nth 0 slices (0, 0)%Z)).
-Proof. exact chunk_T0_refuted. Qed.
-Print Assumptions c09_chunk_T0_refuted.
 
 (* ---- "Compacting by a boolean mask yields, per row, the selected elements in order followed by the
    padding value, with the count as length" - both layouts; for batch_first = false the statement is
@@ -219,6 +207,15 @@ Proof.
       destruct n as [|[|n]]; cbn in *; auto with arith; exfalso; apply (Nat.lt_irrefl 0);
       repeat apply Nat.succ_lt_mono in H; inversion H.
   - eexists. split; [vm_compute; reflexivity|]. split; reflexivity.
+Qed.
+
+(* regression (fix fbf5037): an empty time dimension no longer forces every reported length to 0 *)
+Example c09_chunk_T0_example :
+  chunk_inputs_ok 0 Constant [[]; []] [(0, 3)%Z; (2, 1)%Z] (Some [0; 0]) /\
+  chunk_by_slices 0 0 7 Constant [[]; []] [(0, 3)%Z; (2, 1)%Z] (Some [0; 0]) = Ok ([[7; 7; 7]; [7; 7; 7]], [3; 0]).
+Proof.
+  split; [|reflexivity]. unfold chunk_inputs_ok. repeat split; try discriminate;
+    destruct n as [|[|n]]; cbn in *; auto with arith.
 Qed.
 
 Example c09_shift_nonvacuous :
